@@ -451,6 +451,40 @@ func c07Scenarios() []c07Scenario {
 		}}
 	}
 	res = append(res, h2("H2 append+indexer+seal+reader", false, 1))
+
+	// ---- H6: two fractions are sealed at the same time (every rotation seals in its own goroutine, so seals overlap
+	// whenever a fraction fills faster than the previous one seals); afterwards every document of both is served
+	res = append(res, c07Scenario{"H6 two overlapping seals", func() (*c07World, []func(), func()) {
+		w := newC07World()
+		ai := frac.VerifNewIndexer(16)
+		fp := newFP(ai, 64*consts.MB)
+		var pfs []*proxyFrac
+		for i, bulk := range [][]int{{0, 1}, {2, 3}} {
+			ref := fp.newActiveRef(fp.NewActive(fmt.Sprintf("%s/seq-db-H6-%d", w.dir, i)))
+			pf := ref.frac
+			w.cleanup = append(w.cleanup, pf.Suicide)
+			docs := c07Bulk(bulk...)
+			w.submit(docs)
+			d, m := vfrac.BuildBulk(docs, 1)
+			if err := pf.Append(d, m); err != nil {
+				panic(err)
+			}
+			for ai.VerifProcessOne() {
+			}
+			w.acked = append(w.acked, docs...)
+			pfs = append(pfs, pf)
+		}
+		get := func() List { return List{pfs[0], pfs[1]} }
+		sealer := func(pf *proxyFrac) func() {
+			return func() {
+				if _, err := pf.Seal(frac.SealParams{IDsZstdLevel: 1, LIDsZstdLevel: 1, TokenListZstdLevel: 1, DocsPositionsZstdLevel: 1, TokenTableZstdLevel: 1, DocBlocksZstdLevel: 1}); err != nil {
+					w.fail("seal error: %v", err)
+				}
+			}
+		}
+		bodies := []func(){sealer(pfs[0]), sealer(pfs[1])} // readers are judged in H2/H3/H5; here: what the two seals leave behind
+		return w, bodies, func() { w.finalCheck(listSearch(get, 2), listFetch(get), true) }
+	}})
 	// (a Suicide racing with writes is retention, which is outside this property's quantifier)
 
 	// ---- H3: rotation through the FracManager ----
